@@ -63,7 +63,7 @@ func (t *c16RT) RoundTrip(req *http.Request) (*http.Response, error) {
 	} else {
 		t.log = append(t.log, "P W? "+req.Method+" "+req.URL.String())
 	}
-	if t.reply.netErr {
+	if t.reply.netErr || len(t.log) > 3 { // (a resolver that kept asking would never stop: the stub does)
 		return nil, errors.New("stub: connection refused")
 	}
 	h := http.Header{}
